@@ -4,7 +4,7 @@ from vf import gen, corecheck as cc, framework as fw, model_perm
 RULE = ("perms profile: 3-7 modules over 4 names with random subsets of DENY_CTX / DENY_PUB / DENY_SUB / PERSIST / ALLOW_REPLACE, "
         "registrations of equal names in every order (before the loop, from driver steps, from callbacks), restricted calls (sends, "
         "pills, (un)subscriptions, every m_ctx_* entry point incl. quit and tick, deregistration of persistent modules, publishing "
-        "on LIBMODULE_* topics) issued from eval/start/stop/event callbacks at nesting depth up to 3; loop_start_callbacks profile: the evaluation / start callback that the loop start runs for an IDLE module deregisters a persistent module; both modes. Oracle: duplicate "
+        "on LIBMODULE_* topics) issued from eval/start/stop/event callbacks at nesting depth up to 3; colliding_modules profile: 3-5 modules whose names share one probe chain of the context's module table (same slot, neighbouring slots, across the table end), removed from the front / middle / end, looked up by name, registered again; loop_start_callbacks profile: the evaluation / start callback that the loop start runs for an IDLE module deregisters a persistent module; both modes. Oracle: duplicate "
         "live name -> -EEXIST unless the incumbent allows replacement (then it is ZOMBIE afterwards); deny-pub sends fail and their "
         "payload is never delivered; deny-sub calls fail and leave the source count unchanged; context calls issued from a callback "
         "of a deny-ctx module fail and a refused quit does not end the loop; persistent modules survive direct deregistration while "
@@ -32,6 +32,12 @@ def run(tier):
         for m in ("loop", "dispatch"):
             c = cc.Case()
             c.sc, c.profile, c.mode, c.seed = sc, "loop_start_callbacks", m, seed * 1000 + k
+            cases.append(c)
+    for k in range(24 if tier == "quick" else 600):
+        sc = gen.gen_colliding_modules(seed * 1000 + k)
+        for m in ("loop", "dispatch"):
+            c = cc.Case()
+            c.sc, c.profile, c.mode, c.seed = sc, "colliding_modules", m, seed * 1000 + k
             cases.append(c)
     judged = {}
 
